@@ -190,6 +190,279 @@ def sibling_rule(rule, c, wrappers, pair_exceptions=None):
     return n
 
 
+def default_length_rule(rule, c, wrappers):
+    """Level-1 wrappers: the default of an omitted n is the number of elements the vector holds
+    from its offset on with its stride, i.e. the largest n with offset + 1 + (n-1)*|inc| <= len
+    (0 when the offset is past the end).  Decided by evaluating the default expression on a
+    grid of small (len, offset, inc) and comparing with that definition."""
+    from . import ceval as ce
+    helpers = ce.one_line_helpers(c)
+    cnt = 0
+    for fn in wrappers:
+        sim = cm.Simulator(c, fn)
+        g = cg.global_sign_facts(sim)
+        cands = []
+        for st in cf.walk(sim.body):
+            if st.get("k") != "IfStmt":
+                continue
+            cond = sim.cond_of(st)
+            if cond is None or cx.unparse(cx.strip_casts(cond)).replace(" ", "") not in ("(n<0)", "n<0"):
+                continue
+            for x in cf.walk(st["c"][1]) if len(st.get("c", [])) > 1 else []:
+                if x.get("k") == "BinaryOperator" and x.get("op") == "=" and not x.get("bm"):
+                    e = sim.stmt_expr(x)
+                    if e and e[0] == "assign" and e[2] == ("id", "n"):
+                        cands.append((x, e[3]))
+                elif x.get("k") == "IfStmt":
+                    e = sim.cond_of(x)
+                    if e is not None:
+                        e = cx.strip_casts(e)
+                        if e[0] == "bin" and e[1] in ("!=", "==") and cx.strip_casts(e[2]) == ("id", "n"):
+                            cands.append((x, e[3]))
+        for node, expr in cands:
+            names = ce.free_names(expr, helpers)
+            lens = [x for x in names if x.startswith("len(")]
+            if len(lens) != 1:
+                continue               # not a vector-length default (matrix dimensions etc.)
+            V = lens[0][4:-1]
+            ov, iv = "o" + V, "i" + V
+            key = "%s:default n from %s" % (fn, V)
+            where = "src/C/%s:%s:%d" % (c.name, fn, c.line_of(node.get("b")))
+            cnt += 1
+            if names - {lens[0], ov, iv}:
+                rule.undecided(key, where, "default expression uses %s besides len/offset/inc" % sorted(names - {lens[0], ov, iv}))
+                continue
+            incs = (1, 2, 3) if ">0" in g.get(iv, ()) else (-3, -2, -1, 1, 2, 3)
+            bad = None
+            try:
+                for L in range(0, 10):
+                    for o in range(0, 6):
+                        for inc in incs:
+                            got = ce.ceval(expr, {lens[0]: L, ov: o, iv: inc}, helpers)
+                            want = 0 if L < o + 1 else 1 + (L - o - 1) // abs(inc)
+                            if got != want and bad is None:
+                                bad = ({"len": L, "offset": o, "inc": inc}, got, want)
+            except (ce.Unknown, ZeroDivisionError) as ex:
+                rule.undecided(key, where, "default expression not evaluable: %s" % ex)
+                continue
+            if bad:
+                rule.violation(key, where,
+                               "with n omitted, %s gives n = %d but the vector addressed from its offset with its stride has %d elements"
+                               % (bad[0], bad[1], bad[2]), "(len >= o+1) ? 1 + (len-o-1)/|inc| : 0", cx.unparse(expr))
+            else:
+                rule.ok(key, where, cx.unparse(expr)[:80])
+    return cnt
+
+
+def switch_arm_texts(c, sw):
+    """{label: text} of the top-level arms of a switch statement, from the source text with
+    preprocessor conditionals resolved for the analysed configuration (so that an arm that
+    starts inside an #if block is cut consistently)."""
+    span = c.paren_after(sw["b"])
+    if not span:
+        return {}
+    src = c.srcb
+    i = span[1] + 1
+    n = len(src)
+    while i < n and src[i:i + 1] != b"{":
+        if src[i:i + 1] not in b" \t\r\n":
+            return {}
+        i += 1
+    depth, j = 0, i
+    while j < n:
+        ch = src[j:j + 1]
+        if ch in (b'"', b"'"):
+            q = ch
+            j += 1
+            while j < n and src[j:j + 1] != q:
+                if src[j:j + 1] == b"\\":
+                    j += 1
+                j += 1
+        elif src[j:j + 2] == b"//":
+            k = src.find(b"\n", j)
+            j = k if k >= 0 else n
+        elif src[j:j + 2] == b"/*":
+            k = src.find(b"*/", j + 2)
+            j = k + 1 if k >= 0 else n
+        elif ch == b"{":
+            depth += 1
+        elif ch == b"}":
+            depth -= 1
+            if depth == 0:
+                break
+        j += 1
+    body = cx.strip_pp(src[i + 1:j].decode(errors="replace"))
+    body = re.sub(r"//[^\n]*", "", body)
+    body = re.sub(r"/\*.*?\*/", "", body, flags=re.S)
+    arms, cur, depth = {}, None, 0
+    pos = 0
+    lab_re = re.compile(r"\b(case\s+(\w+)|default)\s*:")
+    marks = []
+    k = 0
+    while k < len(body):
+        ch = body[k]
+        if ch in "({[":
+            depth += 1
+        elif ch in ")}]":
+            depth -= 1
+        elif depth == 0:
+            m_ = lab_re.match(body, k)
+            if m_ and (k == 0 or not (body[k - 1].isalnum() or body[k - 1] == "_")):
+                marks.append((k, m_.end(), m_.group(2) or "default"))
+                k = m_.end()
+                continue
+        k += 1
+    for idx, (b0, e0, lab) in enumerate(marks):
+        end = marks[idx + 1][0] if idx + 1 < len(marks) else len(body)
+        arms.setdefault(lab, "")
+        arms[lab] += body[e0:end]
+    # fall-through labels (`case A: case B: stmts`) share the statements of the next arm
+    labs = [m_[2] for m_ in marks]
+    for idx in range(len(labs) - 2, -1, -1):
+        if not arms[labs[idx]].strip():
+            arms[labs[idx]] = arms[labs[idx + 1]]
+    return arms
+
+
+def _norm_typed(t):
+    t = re.sub(r"\s+", "", t)
+    t = re.sub(r"MAT_BUF[IDZ]\b", "MAT_BUF#", t)
+    t = re.sub(r"\.(i|d|z)\b", ".#", t)
+    t = re.sub(r"\b(int_t|double|complex_t)\b", "#", t)
+    return t
+
+
+def typed_arm_rule(rule, c, functions, exceptions=None):
+    """`switch (id)` statements whose INT / DOUBLE / COMPLEX arms do the same element-wise
+    work must be identical up to the element type (MAT_BUFI/D/Z, n.i/n.d/n.z)."""
+    n = 0
+    exceptions = exceptions or {}
+    for fn in functions:
+        node = c.funcs[fn]
+        nth = 0
+        for sw in [x for x in cf.walk(node) if x.get("k") == "SwitchStmt" and x.get("b") is not None and not x.get("bm")]:
+            arms = switch_arm_texts(c, sw)
+            labs = [l for l in ("INT", "DOUBLE", "COMPLEX") if l in arms]
+            if len(labs) < 2:
+                continue
+            nth += 1
+            key = "%s:switch#%d:%s" % (fn, nth, "~".join(labs))
+            where = "src/C/%s:%s:%d" % (c.name, fn, c.line_of(sw["b"]))
+            n += 1
+            if (fn, nth) in exceptions or fn in exceptions:
+                rule.ok(key + ":named-exception", where, exceptions.get((fn, nth)) or exceptions.get(fn))
+                continue
+            norm = {l: _norm_typed(arms[l]) for l in labs}
+            ref = norm[labs[0]]
+            odd = [l for l in labs if norm[l] != ref]
+            if not odd:
+                rule.ok(key, where, ref[:60])
+            else:
+                # majority arm is the reference
+                from collections import Counter
+                common = Counter(norm.values()).most_common(1)[0][0]
+                odd = [l for l in labs if norm[l] != common]
+                rule.violation(key, where, "the %s arm differs from its sibling arms beyond the element type: `%s` vs `%s`"
+                               % ("/".join(odd), arms[odd[0]].strip()[:90], [arms[l] for l in labs if l not in odd][0].strip()[:90]),
+                               common[:100], norm[odd[0]][:100])
+    return n
+
+
+def sibling_function_rule(rule, c, pairs, exceptions=None):
+    """real / complex kernels of sparse.c written as separate functions address their arrays
+    with the same set of index expressions."""
+    def subs(fn):
+        node = c.funcs[fn]
+        t = cx.strip_pp(c.text(node["b"], node["e"]))
+        t = re.sub(r"/\*.*?\*/", "", t, flags=re.S)
+        out = set()
+        for m_ in re.finditer(r"\b([A-Za-z_]\w*(?:->\w+)?)\s*\[", t):
+            i, d = m_.end(), 1
+            while i < len(t) and d:
+                if t[i] == "[":
+                    d += 1
+                elif t[i] == "]":
+                    d -= 1
+                i += 1
+            idx = re.sub(r"\s+", "", t[m_.end():i - 1])
+            arr = re.sub(r"^[dz]list$", "#list", m_.group(1))
+            idx = re.sub(r"\b(DOUBLE|COMPLEX)\b", "ID", idx)
+            out.add((arr, idx))
+        return out
+    n = 0
+    for d, z in pairs:
+        if d not in c.funcs or z not in c.funcs:
+            raise AnalysisError("sibling kernels %s / %s not found in %s" % (d, z, c.name))
+        n += 1
+        key = "%s~%s:index expressions" % (d, z)
+        where = "src/C/%s:%s" % (c.name, d)
+        if exceptions and d in exceptions:
+            rule.ok(key + ":named-exception", where, exceptions[d])
+            continue
+        a, b = subs(d), subs(z)
+        if a == b:
+            rule.ok(key, where, "%d subscript expressions" % len(a))
+        else:
+            rule.violation(key, where, "the real and the complex kernel address their arrays differently: only %s: %s; only %s: %s"
+                           % (d, sorted(a - b)[:2], z, sorted(b - a)[:2]), "same index set", sorted(a ^ b)[:4])
+    return n
+
+
+STORE_EXCEPTIONS = {
+    "gees": "the real Schur routine returns the eigenvalues in two real arrays that the real arm merges into W; the complex routine writes W itself",
+    "gges": "real arm merges alphar/alphai into a; the complex arm extracts the real beta from a complex array",
+}
+
+
+def arm_store_rule(rule, c, wrappers):
+    """The DOUBLE and COMPLEX arms of a wrapper store the same things into matrix buffers
+    by hand (pivot copy-backs, result assembly): the multisets of `MAT_BUF*(X)[..] = ..;`
+    statements agree up to precision and the name of the loop index."""
+    n = 0
+    for fn in wrappers:
+        node = c.funcs[fn]
+        sim = cm.Simulator(c, fn)
+        for sw in [x for x in cf.walk(node) if x.get("k") == "SwitchStmt"]:
+            ce = sim.cond_of(sw)
+            if ce is None or ce[0] != "call" or ce[1] not in ("MAT_ID", "X_ID"):
+                continue
+            res = {}
+            for labels, stmts in sim._switch_arms(sw["c"][-1]):
+                lab = labels[0]
+                if lab not in ("DOUBLE", "COMPLEX"):
+                    continue
+                bs = [s_.get("b") for s_ in stmts if s_.get("b") is not None]
+                if not bs:
+                    continue
+                b0 = min(bs)
+                e0 = max((s_.get("e") or s_.get("b")) for s_ in stmts if s_.get("b") is not None)
+                txt = c.text(b0, e0 + 600)
+                cut = re.search(r"\n\s*case\s+\w+\s*:|\n\s*default\s*:", txt)
+                if cut:
+                    txt = txt[:cut.start()]
+                txt = cx.strip_pp(txt)
+                res[lab] = sorted(re.sub(r"\b[ijk]\b", "_", _norm_arm(m_.group(0)))
+                                  for m_ in re.finditer(r"MAT_BUF\w*\(\w+\)\s*\[[^;]*?\]\s*[-+*/]?=[^=][^;]*;", txt))
+            if "DOUBLE" not in res or "COMPLEX" not in res:
+                continue
+            if not res["DOUBLE"] and not res["COMPLEX"]:
+                continue
+            n += 1
+            key = "%s:DOUBLE~COMPLEX:stores" % fn
+            where = "src/C/%s:%s:%d" % (c.name, fn, c.line_of(sw.get("b")))
+            if fn in STORE_EXCEPTIONS:
+                rule.ok(key + ":named-exception", where, STORE_EXCEPTIONS[fn])
+            elif res["DOUBLE"] == res["COMPLEX"]:
+                rule.ok(key, where, res["DOUBLE"][:3])
+            else:
+                only_d = [x for x in res["DOUBLE"] if x not in res["COMPLEX"]]
+                only_z = [x for x in res["COMPLEX"] if x not in res["DOUBLE"]]
+                rule.violation(key, where,
+                               "the real and complex arms do not write the same results back into the matrix arguments: only real arm %s, only complex arm %s"
+                               % (only_d[:2], only_z[:2]), res["DOUBLE"][:4], res["COMPLEX"][:4])
+    return n
+
+
 # --------------------------------------------------------------------------------------
 # parse tables
 # --------------------------------------------------------------------------------------
